@@ -57,7 +57,7 @@ func registerVerifrt(reg func(f intrinsicFn, names ...string)) {
 		t := e.fresh(e.strArg(args[0]), 64)
 		e.inputLog = append(e.inputLog, InputRec{Label: e.strArg(args[0]), Kind: "choice", Terms: []*Term{t}, W: 64})
 		e.assume(e.tf.And(e.tf.Cmp(OSle, e.tf.Const(64, 0), t), e.tf.Cmp(OSlt, t, n)))
-		return e.tf.Const(64, uint64(e.concretise(t)))
+		return e.tf.Const(64, uint64(e.concretiseN(t, int(e.concretise(n))+1)))
 	}, P+"Choice")
 	reg(func(e *Exec, fn *ssa.Function, args []Value) Value {
 		e.assume(args[0].(*Term))
